@@ -221,6 +221,51 @@ func recursiveCase(r *sg.Rng, i int) *sem.Case {
 	return c
 }
 
+// fileCycleCase: recursion through files - team.json -> member.yaml -> team.json - with the root file spelled in
+// ways a path cleaner would change and from different working directories: the reference that comes back to the file
+// named on the command line must land on the very same document.
+func fileCycleCase(i int) *sem.Case {
+	team := &sg.Schema{Types: []string{"object"}}
+	member := &sg.Schema{Types: []string{"object"}}
+	yaml := i%2 == 0
+	mfile := "member.json"
+	if yaml {
+		mfile = "member.yaml"
+	}
+	team.Props = []sg.Prop{{Name: "name", S: &sg.Schema{Types: []string{"string"}, MinLen: 1}}, {Name: "lead", S: &sg.Schema{Ref: mfile, Target: member}},
+		{Name: "members", S: &sg.Schema{Types: []string{"array"}, Items: &sg.Schema{Ref: mfile, Target: member}}}}
+	team.Required = []string{"name"}
+	member.Props = []sg.Prop{{Name: "login", S: &sg.Schema{Types: []string{"string"}, MaxLen: 8}}, {Name: "team", S: &sg.Schema{Ref: "team.json", Target: team}}}
+	member.Required = []string{"login"}
+	spell := []struct{ cwd, in string }{{"", "org/team.json"}, {"", "./org/team.json"}, {"", "org//team.json"}, {"", "org/../org/team.json"}, {"org", "team.json"}, {"org", "./team.json"}, {"org", "../org/team.json"}, {"org", ".//team.json"}}[(i/2)%8]
+	mdata := jsonx.MarshalIndent(member.ToJSON())
+	if yaml {
+		mdata = sg.ToYAML(member.ToJSON(), sg.YAMLBlock)
+	}
+	c := &sem.Case{Root: team, Sig: fmt.Sprintf("file-cycle/%s|%s|%v", spell.cwd, spell.in, yaml), NoAuto: true, RootFile: "org/team.json", Cwd: spell.cwd, Input: spell.in,
+		Extra: []batch.File{{Path: "org/" + mfile, Data: mdata}}}
+	if (i/16)%2 == 1 {
+		c.Args = []string{"--extra-imports"}
+	}
+	var mk func(d int, login string, name any) any
+	mk = func(d int, login string, name any) any {
+		t := jsonx.Obj{{K: "name", V: name}}
+		if d > 0 {
+			inner := mk(d-1, login, name)
+			t = append(t, jsonx.KV{K: "lead", V: jsonx.Obj{{K: "login", V: "l"}, {K: "team", V: inner}}})
+		} else {
+			t = append(t, jsonx.KV{K: "members", V: []any{jsonx.Obj{{K: "login", V: login}}}})
+		}
+		return t
+	}
+	for _, d := range []int{0, 1, 2, 8, 40} {
+		c.Docs = append(c.Docs, docgen.Doc{V: mk(d, "ok", "n"), Class: "deep", Label: fmt.Sprintf("cycle-depth-%d-valid", d)},
+			docgen.Doc{V: mk(d, "waytoolonglogin", "n"), Class: "deep", Label: fmt.Sprintf("cycle-depth-%d-login-too-long", d)},
+			docgen.Doc{V: mk(d, "ok", jsonx.N(5)), Class: "deep", Label: fmt.Sprintf("cycle-depth-%d-name-type", d)})
+	}
+	return c
+}
+
 func c10(ctx *Ctx) (*Outcome, error) {
 	n := ctx.N(300, 5000)
 	var cases []*sem.Case
@@ -257,6 +302,9 @@ func c10(ctx *Ctx) (*Outcome, error) {
 	for i := 0; i < nrec; i++ {
 		cases = append(cases, recursiveCase(sg.NewRng(ctx.Seed, fmt.Sprintf("C10-rec-%d", i)), i))
 	}
+	for i := 0; i < ctx.N(16, 32); i++ {
+		cases = append(cases, fileCycleCase(i))
+	}
 	// pinned witness: root self reference "#" is generated as interface{} (recorded finding root-self-ref-untyped)
 	{
 		root := &sg.Schema{Types: []string{"object"}, Props: []sg.Prop{{Name: "value", S: &sg.Schema{Types: []string{"integer"}, Max: sg.Fp(9)}}}}
@@ -268,7 +316,7 @@ func c10(ctx *Ctx) (*Outcome, error) {
 		Env: ctx.Env, Values: true}
 	// a reference form that the generator refuses while it accepts the inlined twin is not transparent either
 	var gviol []Viol
-	refusedRef := 0
+	refusedRef, cycleRuns := 0, 0
 	shared, sharedBad := 0, 0
 	var cviol []Viol
 	cfg.AfterBatch = func(cases []*sem.Case) {
@@ -287,6 +335,28 @@ func c10(ctx *Ctx) (*Outcome, error) {
 					_ = os.WriteFile(filepath.Join(rp, "verif-summary.json"), b, 0o644)
 					gviol = append(gviol, Viol{Replay: rp, Summary: fmt.Sprintf("the reference form is refused (%s) while its inlined twin is generated\n args=%v inputs=%v cwd=%q", trunc(firstFailed(p), 300), p.Args, p.Inputs, p.Cwd)})
 				}
+			}
+		}
+		// recursion through files: every spelling of the root file must be generated, and generated as code that builds
+		for _, c := range cases {
+			p := sem.ProgramOf(c)
+			if p == nil || !strings.HasPrefix(c.Sig, "file-cycle/") || p.Proc.TimedOut {
+				continue
+			}
+			cycleRuns++
+			problem := ""
+			if p.Proc.Exit != 0 {
+				problem = "refused: " + trunc(firstFailed(p), 300)
+			} else if p.Report != nil && !p.Report.OK() {
+				problem = "emitted code does not build: " + trunc(p.Report.Summary(), 300)
+			}
+			if problem != "" && len(gviol) < 6 {
+				rp := filepath.Join(evid.ReplayDir(), fmt.Sprintf("C10-cycle-%d", len(gviol)))
+				_ = os.RemoveAll(rp)
+				_ = osexec("cp", "-r", p.Dir, rp)
+				b, _ := json.MarshalIndent(map[string]any{"property": "C10", "kind": "recursion through files", "argv": p.Args, "inputs": p.Inputs, "cwd": p.Cwd, "problem": problem, "stderr": string(p.Proc.Stderr)}, "", " ")
+				_ = os.WriteFile(filepath.Join(rp, "verif-summary.json"), b, 0o644)
+				gviol = append(gviol, Viol{Replay: rp, Summary: fmt.Sprintf("file cycle team.json <-> member with the root spelled %q (cwd %q): %s", p.Inputs, p.Cwd, problem)})
 			}
 		}
 		// census: all referrers of one definition share one named type (same-file cases)
@@ -337,5 +407,6 @@ func c10(ctx *Ctx) (*Outcome, error) {
 	o.Violations = append(o.Violations, cviol...)
 	o.Violations = append(o.Violations, gviol...)
 	o.Coverage["reference_forms_refused_while_twin_accepted"] = refusedRef
+	o.Coverage["file_cycle_generator_runs"] = cycleRuns
 	return o, nil
 }
